@@ -6,14 +6,14 @@ import PyctrModel.Base.AFile
 namespace Pyctr
 
 universe u
-structure Sub (σ : Type u) where
+structure Sub (σ : Type) where
   inner : σ
   offset : Nat
   size : Nat
   seek : Nat
 
 namespace Sub
-variable {σ : Type u} (F : FileOps σ)
+variable {σ : Type} (F : FileOps σ)
 
 def read (s : Sub σ) (size : Int) : Except Err (Bytes × Sub σ) :=
   -- if size < 0: size = self._size - self._seek
